@@ -1,4 +1,4 @@
-from specs.common import run, ASSUME_COMMON
+from specs.common import run, memcheck, ASSUME_COMMON
 
 # The harness is built three times from the same source:
 #  e1-model    asan, every sanitizer report fatal: the main sequential oracle
@@ -11,6 +11,7 @@ from specs.common import run, ASSUME_COMMON
 SPEC = {
     "runs": [
         run("e1-model", "c10_context", "asan", 3000, 200000, need_lib=False, params={"mode": "seq"}),
+        memcheck("c10_context", 300, 15000, need_lib=False, params={"mode": "seq"}),
         run("e1-nullkey", "c10_context_nullkey", "asan", 400, 20000, sq=2, st=8, need_lib=False,
             sources=["harness/c10_context.cc"], params={"mode": "nullkey"},
             cxxflags=["-fsanitize-recover=nonnull-attribute"],
